@@ -305,6 +305,51 @@ def _signed_string_features(fnode):
     return feats
 
 
+def _signed_string_features_cfg(cfg):
+    """The same features when the list is accumulated in a loop (the form the
+    model puts `x = [comprehension]` into):
+        L = []
+        for k in O:
+            if k in D: L.append(urlencode({k: D[k]}))
+        ... SEP.join(L)"""
+    feats = []
+    for nd, c in cfg.call_nodes("join"):
+        if not (isinstance(c.func, ast.Attribute) and len(c.args) == 1 and
+                isinstance(c.args[0], ast.Name)):
+            continue
+        lst = c.args[0].id
+        apps = [(n2, c2) for n2, c2 in cfg.call_nodes("append")
+                if attr_chain(c2.func) == lst + ".append" and len(c2.args) == 1]
+        if len(apps) != 1:
+            continue
+        an, ac = apps[0]
+        loops = [l for l in cfg.by_kind("foriter") if cfg.dominates(l.id, an.id)]
+        if not loops:
+            continue
+        lp = loops[-1]
+        var = unparse(lp.ast.target)
+        elt = ac.args[0]
+        f = {"sep": unparse(c.func.value), "order": unparse(lp.ast.iter),
+             "var": var, "node": c}
+        d = None
+        if isinstance(elt, ast.Call) and call_name(elt) == "urlencode" and \
+                len(elt.args) == 1 and isinstance(elt.args[0], ast.Dict) and \
+                len(elt.args[0].keys) == 1:
+            k, v = elt.args[0].keys[0], elt.args[0].values[0]
+            if isinstance(v, ast.Subscript) and unparse(k) == var and \
+                    unparse(v.slice) == var:
+                d = unparse(v.value)
+                f["encoder"] = "urlencode({k: D[k]})"
+        f["dict"] = d
+        inner = [(unparse(e), p) for e, p, b in cfg.guards(an.id)
+                 if cfg.dominates(lp.id, b) and
+                 var in {x.id for x in ast.walk(e) if isinstance(x, ast.Name)}]
+        f["filter"] = [t.replace(d or "\0", "D") if p else "not (%s)" %
+                       t.replace(d or "\0", "D") for t, p in inner]
+        feats.append(f)
+    return feats
+
+
 def r3_sibling_agreement(run):
     run.rule("R3", "signer and verifier build the signed octet string the same "
              "way: same order tables selected by message kind, same per-"
@@ -313,8 +358,10 @@ def r3_sibling_agreement(run):
     m = run.model
     sg = m.func("pack.http_redirect_message")
     vf = m.func("sigver.verify_redirect_signature")
-    fs = _signed_string_features(sg.node)
-    fv = _signed_string_features(vf.node)
+    fs = _signed_string_features(sg.node) or \
+        _signed_string_features_cfg(cfg_of(sg, m))
+    fv = _signed_string_features(vf.node) or \
+        _signed_string_features_cfg(cfg_of(vf, m))
     key = "signed-string::signer-vs-verifier"
     if len(fs) != 1 or len(fv) != 1:
         run.violated("R3", key, "could not find exactly one signed-string "
@@ -447,8 +494,23 @@ def r4_verdict(run):
         if attr_chain(c.func) != "signer.verify":
             continue
         args = [unparse(a) for a in c.args]
-        run.check(args == ["string", "_sign", "_key"], "R4",
-                  vf.qual + "::verify-args", "verify(string, signature, key)",
+        # (msg, sig, key): msg is the string built above, whatever it is called
+        built = _signed_string_features(vf.node) or \
+            _signed_string_features_cfg(cfg)
+        enc = [e for e in ast.walk(vf.node) if isinstance(e, ast.Call) and
+               isinstance(e.func, ast.Attribute) and e.func.attr == "encode"
+               and built and e.func.value is built[0]["node"]]
+        holder = [n2 for n2 in cfg.by_kind("stmt")
+                  if isinstance(n2.ast, ast.Assign) and enc and
+                  n2.ast.value is enc[0]]
+        ok = len(c.args) == 3 and len(holder) == 1 and \
+            isinstance(c.args[0], ast.Name) and \
+            unparse(holder[0].ast.targets[0]) == c.args[0].id and \
+            {d.node for d in cfg.rd.reaching(c.args[0].id, nd.id)} == \
+            {holder[0].id}
+        run.check(ok, "R4",
+                  vf.qual + "::verify-args", "verify(<the rebuilt string>, "
+                  "signature, key)",
                   "signer.verify(%s)" % args, vf.loc(c))
         korg = Origins(cfg, transparent={"extract_rsa_key_from_x509_cert": "all",
                                          "pem_format": "all"})
@@ -487,8 +549,12 @@ def r4_verdict(run):
               "`return True` sits in the else clause of the try",
               "`return True` moved out of the success branch", kv.loc())
     rs = m.func("sigver.RSASigner.verify")
-    run.check("key_verify(key or self.key, sig, msg, self.digest)" in
-              unparse(rs.node).replace("\n", " ").replace("  ", " "), "R4",
+    rcfg = cfg_of(rs, m)
+    rrets = rcfg.by_kind("return")
+    run.check(len(rrets) == 1 and rcfg.same(
+        rrets[0].ast.value, rrets[0].id,
+        "saml2_tophat.cryptography.asymmetric.key_verify(key or self.key, "
+        "sig, msg, self.digest)"), "R4",
               rs.qual + "::delegates", "RSASigner.verify -> key_verify(key, "
               "sig, msg, digest)", "RSASigner.verify changed", rs.loc())
 
